@@ -3,6 +3,7 @@ import PikaVerif.Props.C14q
 import PikaVerif.Lemmas.StopT
 import PikaVerif.Lemmas.StopT2
 import PikaVerif.Lemmas.StopT3
+import PikaVerif.Lemmas.StopProg
 /-!
 # C14t — termination of the stop_state operations (follow-up of C14 / C14p / C14q)
 
@@ -335,6 +336,76 @@ theorem C14t_maximal_only_env (s s' : St) (e : Ev) (hr : ReachableP s) (hm : Max
       · rcases hidle a with h1 | h1 <;> rw [h1] at h <;> simp at h
       · simp at h
   · rfl
+
+/-! ## Finite programs
+
+`Lemmas/StopProg.lean`: a program gives every thread a finite list of operations and every
+callback a finite script (construct / destroy a callback — itself or another one —, request_stop,
+queries, copy / drop a stop_source); `pstep` accepts exactly the model logs in which every
+environment event is an operation of the acting activity's list (thread list at nesting level 0,
+the script of the running callback inside a body). -/
+
+/-- accepted logs of a program are accepted logs of the model: everything proved about the model
+    (C14, C14p, C14q and the theorems above) holds along every run of every program -/
+theorem C14t_program_refines (p p' : PSt) (log : List Ev) (h : runLog pstep p log = some p') :
+    runLog step p.s log = some p'.s :=
+  runLog_pstep_step log p p' h
+
+/-- **Every accepted event of a program is a stutter or strictly decreases `phi`** (`phi` = `mu` +
+    `10 n + 22` per operation not yet started); a stutter changes neither state nor program. -/
+theorem C14t_program_measure (p p' : PSt) (e : Ev) (h : pstep p e = some p') :
+    (stutter p.s e = true ∧ p'.s = p.s ∧ p'.ops = p.ops ∧ p'.m = p.m) ∨ phi p' < phi p :=
+  phi_step p p' e h
+
+/-- **Termination of finite programs, modulo the stutter.**  Every accepted log of a program with
+    `n` activities and `N` operations in its thread lists and callback scripts contains at most
+    `n + (10 n + 22) N` events that are not stutters — whatever the interleaving, the number of
+    threads and callbacks, the nesting depth, pinned or repaired code. -/
+theorem C14t_program_bounded (n K : Nat) (ident : Nat → Nat) (fixCas fixCtor : Bool) (srcs : Nat)
+    (ops : Nat → List Op) (m : Nat) (log : List Ev) (p' : PSt)
+    (h : runLog pstep (pinit n K ident fixCas fixCtor srcs ops m) log = some p') :
+    nSteps (pinit n K ident fixCas fixCtor srcs ops m) log + phi p' ≤
+      n + (10 * n + 22) * sumTo m (fun i => (ops i).length) := by
+  have := prog_bound _ _ _ h
+  have h0 : phi (pinit n K ident fixCas fixCtor srcs ops m) = n + (10 * n + 22) * sumTo m (fun i => (ops i).length) := by
+    simp only [phi, pinit, C14t_invCost, todo]
+    rw [mu_init]
+    simp [init]
+  omega
+
+/-- the run of a program is over: the program state accepts nothing but stutters -/
+def PMaximal (p : PSt) : Prop := ∀ e p', pstep p e = some p' → stutter p.s e = true
+
+/-- **Final states of the maximal runs of a program.**  When a program state accepts nothing but
+    stutters, the model state is maximal — so `C14t_final_state` and `C14t_invoked_iff` describe
+    it — and every thread whose list is exhausted has finished. -/
+theorem C14t_program_final (p : PSt) (hr : ReachableP p.s) (hm : PMaximal p) :
+    Maximal p.s ∧ (∀ a, p.s.pc a = .idle ∨ p.s.pc a = .fin) ∧
+    (∀ t, t < p.s.n → t < p.s.K → p.ops t = [] → p.s.pc t = .fin) := by
+  have hmax : Maximal p.s := by
+    intro e hp
+    cases he : enabled p.s e
+    · rfl
+    · exfalso
+      obtain ⟨e', hp', he', hmv⟩ := not_maximal_moves p.s e hp he
+      simp only [enabled, Option.isSome_iff_exists] at he'
+      obtain ⟨s1, hs1⟩ := he'
+      have henv : envEv e' = false := by cases e' <;> simp_all [productive, envEv]
+      have : pstep p e' = some ⟨s1, p.ops, p.m⟩ := by
+        cases e' <;> simp_all [pstep, lift, envEv]
+      have := hm _ _ this
+      simp [moving, this] at hmv
+  have hidle := C14_no_deadlock p.s hr hmax
+  refine ⟨hmax, hidle, fun t htn htK hops => ?_⟩
+  rcases hidle t with h | h
+  · exfalso
+    have h1 : step p.s (.done t) = some { p.s with pc := upd p.s.pc t .fin } := by
+      simp [step, htn, htK, h]
+    have h2 : pstep p (.done t) = some ⟨{ p.s with pc := upd p.s.pc t .fin }, p.ops, p.m⟩ := by
+      simp [pstep, hops, lift, h1]
+    have := hm _ _ h2
+    simp [stutter] at this
+  · exact h
 
 /-! ## (3) Deadlock freedom, maximal-run form -/
 
